@@ -110,6 +110,18 @@ static std::vector<Cfg> configs(const std::string &planner, bool thorough)
         add("empty4", "SE2", "states", 0.3, 0, 0.05, 40);
         return v;
     }
+    if ((flags & vpl::VARIANT) && !thorough)
+    {
+        // option variants share their solve() loop with the base planner: the quick tier drives the option branches on a reduced set
+        add("wallgap4", "R2", "state", 0.3, 0, 0.02, B);
+        add("utrap4", "R2", "state", 0.3, 0, 0.02, B);
+        add("empty4", "R2", "state", 1e-9, 0, 0.02, B);
+        add("diag4", "R2", "state", 0.3, 10, 0.2, B);
+        add("wallgap4", "R2", "states", 0.3, 0.7, 0.05, B);
+        add("maze6", "R2", "region-unsampleable", 0.5, 0, 0.02, B);
+        add("maze6", "SE2", "states", 0.3, 0, 0.05, B);
+        return v;
+    }
     for (auto &m : maps())
         add(m.name, "R2", "state", 0.3, 0, 0.02, B);
     add("empty4", "R2", "state", 1e-9, 0, 0.02, B);  // tiny threshold: only the goal state itself satisfies it
